@@ -380,7 +380,7 @@ def _run(ctx, tmp, server):
             if predicted_ok and ld["ok"] and ld["struct"] != m["eval"] and not sc["nonfinite_any"]:
                 run.broken("K3 model prediction", f"exec gives a schema different from eval_module's, seed {sc['seed']}: "
                            + str(_first_diff(ld["struct"], m["eval"])))
-            if not predicted_ok and ld["ok"] and not problems:
+            if not predicted_ok and ld["ok"] and not problems and not sc["nonfinite_nested"]:
                 run.broken("K3 model prediction", f"model predicts the module cannot be evaluated but it loads and matches "
                            f"(seed {sc['seed']}, tm={sc['tm']})")
         # -- K1 structural
@@ -424,6 +424,11 @@ def _run(ctx, tmp, server):
         elif cls:
             # a listed class that no longer fails is fine (fixed); say so
             run.dist("finding_inputs", cls + ":no-failure")
+        if k1_fail and cls and not problems and run.open_classes.get(cls):
+            # inside a listed finding class the model DESCRIBES the defect; if the real module now differs from
+            # the model there and the property holds on it, the class has been repaired (the guard can go)
+            run.dist("finding_inputs", cls + ":model-predicts-failure-but-repo-ok(fixed?)")
+            k1_fail = None
         if k1_fail:
             k1_bad += 1
             run.violation(f"K1 model/code disagree (seed {sc['seed']}): {k1_fail[:500]}; "
